@@ -324,8 +324,29 @@ for _k, _v in EXTRA.items():
     META[_k]["text"] += " " + _v
     if "constant propagation through the method bodies" in _v or "symbolic evaluation" in _v:
         META[_k]["technique"] += "; model evaluation by the checker's own interpreter (constant/symbol propagation through method bodies on object models)"
+ROUND5 = {
+    "C01": "Forcefield.__init__ is evaluated on a model file system for every combination of built-in / user parameter file and built-in / user names file (which files are opened, which text reaches the names parser); the names model has blocks that match no residue of the force field.",
+    "C02": "set_termini is also evaluated on nucleic-acid strands (alone, two under one chain identifier, next to a peptide), water-only chains and chains numbered with jumps and repeats; ownership rule: the terminus flags are written only by constructors and assign_termini among the functions reachable from the entry points.",
+    "C03": "Shares the new chain models of C02.R9 and the ingestion model with chains Z, z, 9 and blank.",
+    "C04": "Non-interference: no function that removes or moves an input atom (or anything it calls) reads the occupancy or temperature-factor column other than to copy or print it.",
+    "C05": "Non-interference: no function that builds an atom reads occupancy or temperature factor; the template queries (definitions.py) change no module-level container at run time (no table of earlier answers shared between a residue and its patched copies).",
+    "C06": "Every model residue (numbers of one to four digits, negative, with and without chain) must find the row PROPKA made for it under the key the consumer builds; the residue loop of apply_pka_values carries no state from one residue to the next (def-use rule over the loop body, the consumed pKa table excepted).",
+    "C07": "First-wins is decided by evaluating the five residue constructors on model records (better-occupied second locations, an atom listed again under an alternative name); the ingestion model includes chains Z, z, 9 next to records without chain identifier; the water filter model includes residues whose names are pieces of the water names (A, O, OH, W, HO).",
+    "C08": "The model atoms are written one after the other by one process (class-level state of the formatter persists as it would in a run) and include neighbours that differ in insertion code, chain, number or residue name only.",
+    "C09": "print_pqr is evaluated on model lines with and without --whitespace (five- and six-digit serials, HETATM, residue TER, atom END; PDB and mmCIF input): same records, same order, same non-blank characters.",
+    "C10": "atom_site is also evaluated on rows whose values carry more digits than the PDB columns hold (B factor of 100 and more or negative with three decimals, occupancy with four): every row still yields its coordinate record.",
+    "C11": "A store on a class object at run time (Class.attr, cls.attr, type(self).attr) is process-lifetime state whatever the attribute's initial value.",
+    "C12": "main.is_repairable with the counts it reads is evaluated on model structures (hetero groups, ion and waters only: must raise; the same with a ligand file; a complete peptide; a peptide missing one atom); the input readers change no module-level container at run time (every run reads and validates its own files).",
+    "C13": "Non-interference: the bridge search and everything it calls never reads occupancy or temperature factor.",
+    "C14": "A function that fills the cell map from the atom list does so on every path (structured must-pass analysis): a conditional refresh leaves a map built for an earlier atom list.",
+    "C15": "rotate_tetrahedral is evaluated on four model centres (terminal and substituted neighbours, ring): exactly the atoms bonded to the far atom of the axis move, each to the image of its own position; calculate_dihedral_angles is evaluated twice with the atoms moved in between: the stored torsions are those of the current positions.",
+    "C16": "PEOE conservation is also evaluated on molecules with atoms nothing is bonded to (a salt's counter-ion, free ions only).",
+    "C17": "Psize.set_smallest is evaluated on 200+ multigrid-legal global grids under three memory ceilings: the per-processor grid is again 32k+1 >= 33 in every direction, within the global grid and below the ceiling.",
+}
+for _k, _v in ROUND5.items():
+    META[_k]["text"] += " Round 5: " + _v
 TRUST_ALPHA = ("Before analysis every module is desugared, its locals are renamed towards the reference naming and functions that are new, "
-               "single-use and never taken as a value are inlined at their call (equivalent program, sa/alpha.py); renamings and inlinings "
+               "used at up to eight sites and never taken as a value are inlined at their call - also across modules when their body names nothing of the home module - and new generator-based context managers are unfolded at their with statements (equivalent program, sa/alpha.py); renamings and inlinings "
                "applied are listed in the evidence. ")
 for _k in META:
     META[_k]["note"] = META[_k].get("note", "") + TRUST_ALPHA
